@@ -185,7 +185,11 @@ def check_1d(case, ctx: Ctx):
 
 def slice_parts(n):
     b = st.one_of(st.none(), st.integers(-n - 2, n + 2))
-    return st.tuples(st.just("slice"), b, b, st.sampled_from([None, None, None, 1, 2, -1])).map(list)
+    # bounds beyond the ends (numpy clamps them) paired with an ordinary bound on the other side
+    far_start = st.tuples(st.just("slice"), st.sampled_from([-n - 1, -n - 3, -2 * n - 1]), st.one_of(st.none(), st.integers(1, n + 2)), st.none()).map(list)
+    far_stop = st.tuples(st.just("slice"), st.one_of(st.none(), st.integers(-n, n - 1)), st.sampled_from([n + 1, n + 3, 2 * n + 1]), st.none()).map(list)
+    return st.one_of(st.tuples(st.just("slice"), b, b, st.sampled_from([None, None, None, 1, 2, -1])).map(list),
+                     st.tuples(st.just("slice"), b, b, st.sampled_from([None, None, None, 1, 2, -1])).map(list), far_start, far_stop)
 
 
 @st.composite
@@ -325,6 +329,14 @@ def cases_nd(draw, tier="quick"):
     d = draw(st.sampled_from([2, 3, 3, 4]))
     spec = draw(hgen.hist_spec(dims=(d,), dtypes=["int64", "float64", "int32", "float32"], max_bins=5, adaptive=False))
     shape = hgen.shape_of(spec)
+    if draw(st.integers(0, 2)) == 0:
+        # one axis on a fixed-width grid that does not start on a multiple of the width ("integer" bins, align=False)
+        a_ = draw(st.integers(0, d - 1))
+        w_ = draw(st.sampled_from([1.0, 0.5, 2.0, 0.25]))
+        k0_ = draw(st.integers(-4, 4))
+        sh_ = w_ * draw(st.sampled_from([0.5, 0.25]))
+        spec["axes"][a_] = {"form": "fixed", "w": w_, "n": shape[a_], "k0": k0_, "shift": sh_, "incl": draw(st.booleans()), "adaptive": False,
+                            "pairs": hgen.fixed_pairs(w_, shape[a_], k0_, sh_)}
 
     def part(a):
         n = shape[a]
